@@ -68,7 +68,8 @@ OPEN_STATEMENTS = [
     'propagated through the double rotations).',
     'm = n case of givens_decomposition and unitarity of the returned left_unitary: proved (givens_square_case_product, '
     'givens_left_unitary_is_unitary).',
-    'givens_matrix_elements_sound is stated in the exact regime (entries / imaginary parts below EQ_TOLERANCE are exactly 0); '
+    'givens_matrix_elements_sound is stated in the exact regime (entries below EQ_TOLERANCE are exactly 0, an imaginary part of the '
+    'relative phase (a/|a|) conj(b/|b|) below EQ_TOLERANCE is exactly 0 - the real / complex test of the repaired code 7be94873); '
     'behaviour for 0 < |x| < 1e-8 is outside the theorem.',
 ]
 
